@@ -86,13 +86,23 @@ def _make_views():
             return f'tok-view-{self.K}-get'
     for k in (4, 5):
         views.append(type(f'V{k}', (Base,), {'K': k}))
+
+    # public methods contributed by a plain mixin listed AFTER the view base class
+    class Mixin:
+        def mixed(self):
+            return 'tok-view-6-mixed'
+
+    class V6(pjrpc.server.ViewMixin, Mixin):
+        def own(self):
+            return 'tok-view-6-own'
+    views.append(V6)
     return views
 
 
 FUNCS = _make_functions()
 VIEWS = _make_views()
 VIEW_PUBLIC = {0: ['get', 'put', 'stat'], 1: ['get', 'put', 'stat'], 2: ['get', 'put', 'stat', 'only2', 'cached'], 3: ['get', 'put', 'stat', 'extra'],
-               4: ['info', 'get'], 5: ['info', 'get']}
+               4: ['info', 'get'], 5: ['info', 'get'], 6: ['mixed', 'own']}
 # tokens of view 3: 'get' and 'extra' are its own, 'put' and 'stat' are inherited from view 0
 VIEW3_TOKENS = {'get': 'tok-view-3-get', 'extra': 'tok-view-3-extra', 'put': 'tok-view-0-put', 'stat': 'tok-view-0-stat'}
 
@@ -111,7 +121,7 @@ class C15(Check):
         "add(f, name) (names incl. dotted ones and names colliding with other registrations), add_methods(f, g), one decorator object obtained from add() applied to two functions, view(V), view(V, prefix), "
         "merge(r_i into r_j) (i != j, chains up to 3 levels; merged content is a snapshot), then attachment to a sync or async dispatcher via "
         "add_methods(registry) / add(f, name) / view(V) / one add_methods(...) call mixing registries, functions and Method objects in any argument order; functions return unique tokens, two functions share one __name__, views have public "
-        "methods, a staticmethod, a method behind functools.lru_cache (callable, not a plain function), _private and __dunder__ methods and non-callable attributes; one view inherits its public methods from another, two sibling views inherit all of theirs from a common base. Oracle: a dict model name -> token built from "
+        "methods, a staticmethod, a method behind functools.lru_cache (callable, not a plain function), _private and __dunder__ methods and non-callable attributes; one view inherits its public methods from another, two sibling views inherit all of theirs from a common base, one gets a method from a plain mixin listed after the view base class. Oracle: a dict model name -> token built from "
         "the property's naming rule; after attach every model name dispatches to its token, every probed other name (one edit away, prefix "
         "dropped / added, private and dunder member names with and without prefixes, bare un-prefixed names) yields -32601, and the "
         "dispatcher's registry key set equals the model's; the attachments are then repeated on a second dispatcher that is probed before the first and after every attach step (a name answers -32601 until registered, its latest registration afterwards). non-trivial = the history merges a prefixed registry or registers a view, and "
@@ -128,7 +138,7 @@ class C15(Check):
     def strategy(self, tier: str):
         s_fn = st.integers(0, len(FUNCS) - 1)
         s_reg = st.integers(0, 3)
-        s_view = st.sampled_from([0, 1, 2, 3, 4, 5, 4, 5])
+        s_view = st.sampled_from([0, 1, 2, 3, 4, 5, 4, 5, 6])
         s_op = st.one_of(
             st.builds(lambda r, f: ['add', r, f], s_reg, s_fn),
             st.builds(lambda r, f, n: ['add-name', r, f, n], s_reg, s_fn, st.sampled_from(EXPLICIT)),
@@ -161,6 +171,7 @@ class C15(Check):
              'attach': [['registry', 2]]},
             {'dispatcher': 'sync', 'registries': ['a', None], 'ops': [['view-prefix', 0, 4, 'user'], ['view-prefix', 0, 5, 'user'], ['add', 1, 0], ['view', 1, 5], ['view', 1, 4]],
              'attach': [['mixed', [['func', 1], ['method', 2, 'f0'], ['registry', 1], ['registry', 0]]]]},
+            {'dispatcher': 'sync', 'registries': ['a', None], 'ops': [['view', 0, 6], ['view-prefix', 1, 6, 'user'], ['merge', 0, 1]], 'attach': [['registry', 1], ['view', 6]]},
             {'dispatcher': 'sync', 'registries': ['a'], 'ops': [['add-decorator-reused', 0, 0, 1], ['add-decorator-reused', 0, 2, 5]], 'attach': [['registry', 0]]},
             {'dispatcher': 'async', 'registries': [None, 'a'], 'ops': [['view', 1, 2], ['add-name', 1, 1, 'get'], ['merge', 1, 0]], 'attach': [['registry', 0], ['view', 1]]},
         ]
